@@ -180,7 +180,7 @@ small_q = st.tuples(st.integers(1, 5), st.integers(1, 5), st.integers(0, 4), st.
 
 
 def strat_hist(tier):
-    return st.fixed_dictionaries({'queries': st.lists(small_q, min_size=2, max_size=12), 'scribble': st.booleans(), 'both_fans': st.sampled_from([0, 1, 2])})
+    return st.fixed_dictionaries({'queries': st.lists(small_q, min_size=2, max_size=12), 'scribble': st.booleans(), 'both_fans': st.sampled_from([0, 1, 2]), 'kw': st.sampled_from([0, 0, 1, 2])})
 
 
 def oracle_hist(case, ctx):
@@ -196,7 +196,14 @@ def oracle_hist(case, ctx):
         both = case.get('both_fans', 0) if len(first) < 2 else 0
         if both == 1:
             r360 = guarded(ctx, 'cached_compute_rays', rt.cached_compute_rays, P, A)
-        cached = guarded(ctx, 'cached_compute_rays_fancy', rt.cached_compute_rays_fancy, P, A)
+        # (the memoised helpers take their arguments positionally or by keyword, like any Python function)
+        style = case.get('kw', 0)
+        if style == 1:
+            cached = guarded(ctx, 'cached_compute_rays_fancy', rt.cached_compute_rays_fancy, P, area=A)
+        elif style == 2:
+            cached = guarded(ctx, 'cached_compute_rays_fancy', rt.cached_compute_rays_fancy, position=P, area=A)
+        else:
+            cached = guarded(ctx, 'cached_compute_rays_fancy', rt.cached_compute_rays_fancy, P, A)
         if both == 2:
             r360 = guarded(ctx, 'cached_compute_rays', rt.cached_compute_rays, P, A)
         if both:
@@ -221,7 +228,7 @@ def oracle_hist(case, ctx):
             for r in mine:
                 r.clear()
             mine.clear()
-    ctx.ev.case(case, nt=(len(first) >= 2), classes=(['repeat_query'] if kinds else ['distinct_queries']) + ([f'both_fans:{case.get("both_fans", 0)}'] if case.get('both_fans') else []))
+    ctx.ev.case(case, nt=(len(first) >= 2), classes=(['repeat_query'] if kinds else ['distinct_queries']) + ([f'both_fans:{case.get("both_fans", 0)}'] if case.get('both_fans') else []) + (['keyword_arguments'] if case.get('kw') else []))
 
 
 def json_key(a):
@@ -237,5 +244,5 @@ CHECKS = [
           required=['far_offset', 'fn:ray', 'fn:fancy', 'fn:rays360', 'large_area', 'strip>=400']),
     Check('query_histories', oracle_hist, strategy=strat_hist, examples={'quick': 150, 'thorough': 600}, shards={'quick': 4, 'thorough': 16},
           rule='sequences of 2-12 fan queries (same origin in different areas, repeats) through the cache: every answer valid, equal to an uncached computation and to the first answer for that key',
-          required=['repeat_query', 'both_fans:1', 'both_fans:2']),
+          required=['repeat_query', 'both_fans:1', 'both_fans:2', 'keyword_arguments']),
 ]
